@@ -43,3 +43,34 @@ void h_set_tk3(void)
     skinny128_set_tk3(ks, key, key_size);
     VCANARY();
 }
+
+void h_set_key_inner(void)
+{
+    Skinny128Key_t *ks; const void *key; unsigned key_size; const void *tweak;
+    skinny128_set_key_inner(ks, key, key_size, tweak);
+    VCANARY();
+}
+void h_set_key(void)
+{
+    Skinny128Key_t *ks; const void *key; unsigned size;
+    skinny128_set_key(ks, key, size);
+    VCANARY();
+}
+void h_set_tweaked_key(void)
+{
+    Skinny128TweakedKey_t *ks; const void *key; unsigned key_size;
+    skinny128_set_tweaked_key(ks, key, key_size);
+    VCANARY();
+}
+void h_set_tweak(void)
+{
+    Skinny128TweakedKey_t *ks; const void *tweak; unsigned tweak_size;
+#ifdef VERIF_CASE_LEN
+    tweak_size = VERIF_CASE_LEN;
+#endif
+#ifdef VERIF_CASE_INVALID
+    __CPROVER_assume(tweak_size == 0 || tweak_size > 16);
+#endif
+    skinny128_set_tweak(ks, tweak, tweak_size);
+    VCANARY();
+}
